@@ -55,6 +55,43 @@ def make_operand(pe, repo, kind, tag, by_fraction=False):
   return q
 
 
+def sibling_operands(repo):
+  """IQuantizer subclasses of quantizer_impl that are not one of the KINDS
+  classes, each with the KINDS kind it must behave like (same mode / value
+  set): [(class name, kind)]."""
+  qi = repo.module(QI)
+  base_of = {v[0]: k for k, v in KINDS.items() if k != "binary01"}
+  out = []
+  for cname, ci in sorted(qi.classes.items()):
+    if cname in base_of or cname == "IQuantizer":
+      continue
+    names = [c.name for c in ci.mro()]
+    if "IQuantizer" not in names:
+      continue
+    kind = None
+    for b in names[1:]:
+      if b in base_of:
+        kind = base_of[b]
+        break
+    if kind is not None:
+      out.append((cname, kind))
+  return out
+
+
+def make_sibling(pe, repo, cname, kind, tag):
+  """Operand of class `cname` with the same symbolic widths make_operand
+  gives to `kind`."""
+  qi = repo.module(QI)
+  q = pe.call(pe.lookup_global(cname, qi), [], {})
+  _, over, _ = KINDS[kind]
+  if over is not None:
+    q.attrs["bits"] = Tensor(("sym", "b" + tag), ())
+    q.attrs["int_bits"] = Tensor(("sym", "i" + tag), ())
+    if kind.startswith("po2"):
+      q.attrs["int_bits"] = q.attrs["bits"]
+  return q
+
+
 def field(o, name, fw=None):
   v = o.attrs.get(name)
   if isinstance(v, Tensor):
